@@ -106,7 +106,9 @@ pub fn module_info_json(
   f: &RegFile,
 ) -> Option<serde_json::Value> {
   let url = Url::parse(&file_url(name, version, path)).ok()?;
-  let text: std::sync::Arc<str> = String::from_utf8(file_bytes(f)).ok()?.into();
+  // (a byte order mark is not part of the analysed text)
+  let text = String::from_utf8(file_bytes(f)).ok()?;
+  let text: std::sync::Arc<str> = text.strip_prefix('\u{feff}').unwrap_or(&text).into();
   let info = deno_graph::ast::ParserModuleAnalyzer::default()
     .analyze_sync(&url, text, media_type_for(path))
     .ok()?;
